@@ -904,7 +904,8 @@ class DATETIME(NUMERIC):
             enddt = self._parse_datestring(end).ceil()
             end = datetime_to_long(enddt)
 
-        return query.NumericRange(fieldname, start, end, boost=boost)
+        return query.NumericRange(fieldname, start, end, startexcl, endexcl,
+                                  boost=boost)
 
 
 class BOOLEAN(FieldType):
